@@ -282,7 +282,7 @@ def gen_valid(tier, rng):
     return out
 
 MAL_KINDS = ["reversed_bounds", "empty_set", "empty_minmax", "len_mismatch", "len_mismatch_reif", "zero_divisor", "zero_divisor_fluent",
-             "elem_index_oob", "elem_empty_array", "memory_budget", "memory_then_calls", "empty_aminmax", "elem2d_index_oob", "elem_nd_empty"]
+             "elem_index_oob", "elem_empty_array", "memory_budget", "memory_then_calls", "empty_aminmax", "elem2d_index_oob", "elem_nd_empty", "gcc_len_mismatch", "empty_domain_posting"]
 
 def gen_malformed_one(rng, kind):
     """a valid prefix, ONE documented invalid input of the given kind, a valid suffix, entries"""
@@ -335,6 +335,43 @@ def gen_malformed_one(rng, kind):
         else: g.emit("elementf %s %s" % (arr, idx), kind); g.vars.append(('i', -1000, 1000))
     elif kind == "elem_empty_array":
         g.emit("element - %s %s" % (g.x(), g.x()), kind)
+    elif kind == "gcc_len_mismatch":
+        m = r.randint(0, 3)
+        k = m + r.choice([-2, -1, 1, 2])
+        while k < 0 or k == m: k = m + r.choice([-1, 1, 2])
+        g.emit("gcc %s %s %s" % (g.xs(0, 4), ",".join(str(g.small()) for _ in range(m)) or "-", ",".join(g.x() for _ in range(k)) or "-"), kind)
+    elif kind == "empty_domain_posting":
+        # an operand with an EMPTY domain (reversed bounds, empty value set, or emptied by x == c) is read by a posting method
+        # that derives a result variable from its operands' bounds: Err(InvalidDomain) / unsat from the solving call, no panic
+        t = r.random()
+        if t < 0.35:
+            lo = r.randint(-5, 5); g.emit("int %d %d" % (lo, lo - r.randint(1, 6)), "reversed_bounds"); g.vars.append(('i', lo, lo))
+        elif t < 0.6:
+            g.emit("intset -", "empty_set"); g.vars.append(('i', 0, 0))
+        else:
+            lo = r.randint(-3, 3); hi = lo + r.randint(0, 3)
+            g.emit("int %d %d" % (lo, hi)); g.vars.append(('i', lo, hi))
+            g.emit("new eq(x%d,%d)" % (g.n() - 1, r.choice([lo - 1 - r.randint(0, 3), hi + 1 + r.randint(0, 3)])), kind)
+        e = "x%d" % (g.n() - 1)
+        for _ in range(r.randint(1, 3)):
+            k = r.choice(["add", "sub", "mul", "mod", "abs", "min", "max", "amin", "amax", "sum", "sumiter", "elementf", "neweq"])
+            o = lambda: e if r.random() < 0.6 else g.opnd()
+            if k in ("add", "sub", "mul"):
+                a, b = (e, o()) if r.random() < 0.5 else (o(), e)
+                g.emit("%s %s %s" % (k, a, b), kind); g.vars.append(('i', 0, 0))
+            elif k == "mod":
+                g.emit("mod %s c:%d" % (e, r.choice([-3, 2, 3])) if r.random() < 0.5 else "mod %s %s" % (g.opnd(), e), kind); g.vars.append(('i', 0, 0))
+            elif k == "abs":
+                g.emit("abs " + e, kind); g.vars.append(('i', 0, 0))
+            elif k in ("min", "max", "amin", "amax", "sum", "sumiter"):
+                xs = [g.x() for _ in range(r.randint(0, 2))] + [e]; r.shuffle(xs)
+                g.emit("%s %s" % (k, ",".join(xs)), kind); g.vars.append(('i', 0, 0))
+            elif k == "elementf":
+                xs = [g.x() for _ in range(r.randint(0, 2))] + [e]; r.shuffle(xs)
+                g.emit("int 0 %d" % (len(xs) - 1)); g.vars.append(('i', 0, len(xs) - 1))
+                g.emit("elementf %s x%d" % (",".join(xs), g.n() - 1), kind); g.vars.append(('i', 0, 0))
+            else:
+                g.emit("new eq(%s,%s)" % (e, g.x()), kind)
     elif kind == "empty_aminmax":
         g.emit(r.choice(["amin -", "amax -"]), "empty_minmax")
     elif kind == "elem2d_index_oob":
